@@ -15,7 +15,7 @@ import (
 func init() {
 	register(&propDef{
 		id:      "C07",
-		explain: "Structural necessary conditions of 'configured size limits bound what is buffered': (E6) limit-flow: starting from the fields Server.MaxRequestBodySize / HostClient.MaxResponseBodySize / RequestConfig.MaxRequestBodySize and the limit parameters of the exported *WithLimit / ReadLimitBody / ContinueReadBody entry points, every module function parameter that receives a limit is found by propagation through static calls; each such function either compares the limit in a branch condition, stores it into the N of an io.LimitedReader, or forwards it to a callee that itself does - a function that receives a limit and drops it is a violation; every function that compares a limit has a return of ErrBodyTooLarge (or of an error wrapping it) control-dependent on such a comparison; (R-default) in the serve loop the value handed to the body readers is, on every path of every iteration, the per-request override, the server limit, or the default - a value set while serving an earlier request is never read for a later one - and the connection-level value replaces a non-positive server limit by the default before the loop; (R-431) the default error handler answers 431 for a too-small read buffer, and the error response path sets Connection: close. (R-fwd) the value a limit-receiving function passes on to a limit-taking callee is the received limit on every path: it is never merged with a non-positive constant ('unlimited') except where the received limit itself was found non-positive. (R-ident) BodyUncompressedWithLimit returns a body without Content-Encoding only on paths that compared something with the limit. Not decided: the numeric peak of buffered bytes; streamed bodies (unlimited by design).",
+		explain: "Structural necessary conditions of 'configured size limits bound what is buffered': (E6) limit-flow: starting from the fields Server.MaxRequestBodySize / HostClient.MaxResponseBodySize / RequestConfig.MaxRequestBodySize and the limit parameters of the exported *WithLimit / ReadLimitBody / ContinueReadBody entry points, every module function parameter that receives a limit is found by propagation through static calls; each such function either compares the limit in a branch condition, stores it into the N of an io.LimitedReader, or forwards it to a callee that itself does - a function that receives a limit and drops it is a violation; every function that compares a limit has a return of ErrBodyTooLarge (or of an error wrapping it) control-dependent on such a comparison; (R-default) in the serve loop the value handed to the body readers is, on every path of every iteration, the per-request override, the server limit, or the default - a value set while serving an earlier request is never read for a later one - and the connection-level value replaces a non-positive server limit by the default before the loop; (R-431) the default error handler answers 431 for a too-small read buffer, and the error response path sets Connection: close. (R-fwd) the value a limit-receiving function passes on to a limit-taking callee is the received limit on every path: it is never merged with a non-positive constant ('unlimited') except where the received limit itself was found non-positive. (R-prefit) in a function that receives a body limit, the call that reads a multipart form ahead of the handler is reached only through a branch on that limit; (R-ident) BodyUncompressedWithLimit returns a body without Content-Encoding only on paths that compared something with the limit. Not decided: the numeric peak of buffered bytes; streamed bodies (unlimited by design).",
 		run:     runC07,
 	})
 }
@@ -27,6 +27,7 @@ type limParam struct {
 
 func runC07(p *Prog, r *Report) {
 	identityBodyLimited(p, r)
+	preParseUnderTheLimit(p, r)
 	// ---- E6: find limit-receiving parameters ----
 	lims := map[limParam]bool{}
 	var work []limParam
@@ -627,4 +628,63 @@ func identityBodyLimited(p *Prog, r *Report) {
 		}
 	}
 	r.Floor("R-ident", "returns of the raw body from BodyUncompressedWithLimit", n, 2)
+}
+
+// preParseUnderTheLimit (C07.R-prefit): reading a multipart form ahead of the handler buffers the whole body (values in
+// memory, files up to 16 MiB in memory). In a function that receives a body limit, every path to the call that reads
+// the form (readMultipartForm) passes a branch on a comparison that involves the limit.
+func preParseUnderTheLimit(p *Prog, r *Report) {
+	rm := p.Func("readMultipartForm")
+	if rm == nil {
+		r.Undecided("R-prefit", "readMultipartForm", "not found")
+		return
+	}
+	n := 0
+	for _, fn := range p.funcsIn("") {
+		var limit *ssa.Parameter
+		for _, prm := range fn.Params {
+			if prm.Name() == "maxBodySize" && prm.Type().String() == "int" {
+				limit = prm
+			}
+		}
+		if limit == nil || fn.Blocks == nil {
+			continue
+		}
+		allCalls(fn, func(b *ssa.BasicBlock, c ssa.CallInstruction) {
+			if c.Common().StaticCallee() != rm {
+				return
+			}
+			n++
+			limitTest := func(i ssa.Instruction) bool {
+				iff, ok := i.(*ssa.If)
+				if !ok {
+					return false
+				}
+				var dep func(v ssa.Value, d int) bool
+				dep = func(v ssa.Value, d int) bool {
+					if d > 5 {
+						return false
+					}
+					switch x := v.(type) {
+					case *ssa.BinOp:
+						return derivesFromValue(x.X, limit) || derivesFromValue(x.Y, limit) || dep(x.X, d+1) || dep(x.Y, d+1)
+					case *ssa.Phi:
+						for _, e := range x.Edges {
+							if dep(e, d+1) {
+								return true
+							}
+						}
+					case *ssa.UnOp:
+						return dep(x.X, d+1)
+					}
+					return false
+				}
+				return dep(iff.Cond, 0)
+			}
+			hit, path := reachAvoiding(fn, nil, func(i ssa.Instruction) bool { return i == ssa.Instruction(c) }, limitTest, nil)
+			r.Check("R-prefit", funcName(fn)+": a multipart form is read ahead of the handler only after a comparison with the body limit", hit == nil, p.Pos(c.Pos()),
+				"readMultipartForm is reachable without any branch on maxBodySize: with StreamRequestBody a fixed-length multipart body of any size is read whole into memory (and temp files) before the handler runs, whatever MaxRequestBodySize says", blocksString(p, path)...)
+		})
+	}
+	r.Floor("R-prefit", "form pre-parse calls in functions that receive a body limit", n, 1)
 }
